@@ -182,12 +182,18 @@ Definition handle_nat (fx : bool) (k : key) (v : entry) (rev_ts : Z) (s : state)
   | _ => s
   end.
 
-(* one iteration callback of Scanner.Scan (bpfCleaner != nil, LivenessScanner the only entry scanner) *)
+(* one iteration callback of Scanner.Scan (bpfCleaner != nil, LivenessScanner the only entry scanner).
+   A callback takes time: both clocks have advanced by (at least) one unit when it returns.  (Without this a
+   dataplane write could carry the very timestamp the scanner has just read; the driver ticks the same way.) *)
+Definition tick1 (s : state) : state :=
+  mkS (ct s) (q s) (info s) (kclock s + 1) (gclock s + 1) (cached s) (lastgo s).
+
 Definition judge (cf : conf) (k : key) (s : state) : state :=
   match lookup k (ct s) with
   | None => s
   | Some v =>
       let s1 := refresh s in
+      tick1
       match liveness_verdict (cf_tm cf) (cached s1) (ct s1) k v with
       | None => s1
       | Some ts =>
